@@ -51,6 +51,12 @@ CHECKS = {
          "Comments and doctype identifiers producible by parsing (via R1 over a class alphabet). z3: the language of values left unquoted by _quoteAttributeSpec/_quoteAttributeLegacy (translated from the live patterns, unbounded strings) contains no whitespace, '>', quote, '=', '<' or backtick.",
     note="R1/R10 trusted; 8 listed known findings (raw text by bare name, plaintext, escape_rcdata in raw text, raw CR, boolean minimisation, namespace prefixes, unquoted value + solidus, quote in public id) are excluded by signature and their witnesses replayed; streams of more than one element and encoded output are outside the claim. " + NOTE_COMMON,
     design="§3 C08"),
+ "C09": dict(
+    technique="direct z3 queries generated from the live sanitizer regexes (regular-language emptiness on unbounded strings with alphabet compression; character-class coverage over every code point) + bounded symbolic execution (CrossHair/z3) of sanitize_token / allowed_token / sanitize_css with names, keys and text by symbolic index",
+    text="z3: (1) no style string (unbounded) that survives the url()-removal regex and both gauntlet regexes (read from the AST of sanitize_css, compressed to 28 character classes) contains 'url' WS* '(' in any case; (2) the class stripped from URI values covers every C0 control and space and no scheme character, for every code point. "
+         "CrossHair: element gate over every name of any allow-list entry + 16 dangerous names x 6 namespaces x tag types; attribute gate over all ordered selections of <= 3 keys from a 30-key alphabet with default and custom allow-lists; URI gate for every URI-valued attribute with values over a 16-character URL class alphabet (<= 3/4 chars) vs the browser scheme rule (R6), and 11 concrete dangerous schemes with a hole at every position under the default lists incl. data: content types; CSS gate over an 18-character CSS alphabet (<= 3/5 chars) x 4 heads.",
+    note="R6 browser scheme / data-URL MIME rules are my transcription of WHATWG URL / fetch; urlsplit's lru_cache unwrapped; all-Unicode closure only through the two z3 queries. " + NOTE_COMMON,
+    design="§3 C09"),
  "C02": dict(
     technique="bounded symbolic execution (CrossHair/z3) of the real tokenizer state methods from catalogue pre-states on a symbolic continuation of arbitrary Unicode characters, differentially against an independent transcription of the WHATWG tokenizer (R1)",
     text="For every state method of the live HTMLTokenizer class (catalogue rebuilt from /repo at check time: 119 pre-states over 7 configurations = 5 start states x last start tag x CDATA allowed/not) the real tokenizer is run from that pre-state on EVERY string of <= 2 (quick) / 3 (thorough) Unicode characters followed by end of input, "
